@@ -225,8 +225,9 @@ def kernel_parts_shard(T, dt):
     return tally
 
 
-def homeostasis_shard(param, plasticity, nio, T):
-    """every postsynaptic history (one run each, batch size 1) x targets above and below the observed rate"""
+def homeostasis_shard(param, plasticity, nio, T, override=False):
+    """every postsynaptic history (one run each, batch size 1) x targets above and below the observed rate.
+    override: plasticity, target and parameter reach the cell as register_cell overrides of a trainer with decoy defaults"""
     tally = Tally()
     from inferno.neural import LinearDense, DeltaCurrent, Serial
     from inferno.extra import ExactNeuron
@@ -235,14 +236,20 @@ def homeostasis_shard(param, plasticity, nio, T):
     targets = (0.125, 0.5, 0.875)
     for target in targets:
         for h in hs:
-            case = {"trainer": "homeostasis", "param": param, "plasticity": plasticity, "target": target, "io": list(nio), "post_history": h}
+            case = {"trainer": "homeostasis", "param": param, "plasticity": plasticity, "target": target, "io": list(nio), "post_history": h,
+                    "per_cell_overrides": override}
             tally.add("evaluations")
             conn = LinearDense((n_in,), (n_out,), 1.0, synapse=DeltaCurrent.partialconstructor(1.0), bias=True, delay=2.0, batch_size=1,
                                weight_init=lambda w: torch.full_like(w, 0.5), bias_init=lambda b: torch.zeros_like(b), delay_init=lambda d: torch.full_like(d, 1.0))
             conn.updater = conn.defaultupdater()
             layer = Serial(conn, ExactNeuron((n_out,), 1.0, rest_v=-60.0, thresh_v=-45.0, batch_size=1))
-            tr = LinearHomeostasis(plasticity, target, param)
-            tr.register_cell("cell", layer.cell)
+            if override:
+                decoy_param = {"weight": "bias", "bias": "delay", "delay": "weight"}[param]
+                tr = LinearHomeostasis(-2 * plasticity, 1.0 - target / 2, decoy_param)
+                tr.register_cell("cell", layer.cell, plasticity=plasticity, target=target, param=param)
+            else:
+                tr = LinearHomeostasis(plasticity, target, param)
+                tr.register_cell("cell", layer.cell)
             count = torch.zeros(n_out, dtype=F64)
             for t in range(T):
                 y = torch.tensor([h[t]], dtype=torch.bool)
@@ -444,6 +451,7 @@ def run(rep):
         for lam in (0.25, -0.25):
             jobs.append((homeostasis_shard, (param, lam, (1, 1), 4 if quick else 6)))
             jobs.append((homeostasis_shard, (param, lam, (2, 2), 2 if quick else 3)))
+            jobs.append((homeostasis_shard, (param, lam, (1, 1), 3 if quick else 4, True)))
     tally = run_shards(jobs, seed=rep.seed)
     rep.tally.merge(tally)
     c = tally.counts
